@@ -189,6 +189,11 @@ defvjp(
 )
 
 
+def is_discrete(ans):
+    # an integer or boolean result is a piecewise-constant function of its floating-point inputs: the derivative is zero
+    return anp.result_type(ans).kind not in "fc"
+
+
 def resolve_order(x, order):
     # order="A" stands for "F" if x is Fortran contiguous in memory (and not C contiguous) and for "C" otherwise;
     # order="K" follows the memory of x. A cotangent or tangent has a memory layout of its own, so the index order
@@ -247,7 +252,11 @@ defvjp(
     ),
 )
 defvjp(
-    anp.full, lambda ans, shape, fill_value, dtype=None: unbroadcast_f(fill_value, lambda g: g), argnums=(1,)
+    anp.full,
+    lambda ans, shape, fill_value, dtype=None: (
+        (lambda g: vspace(fill_value).zeros()) if is_discrete(ans) else unbroadcast_f(fill_value, lambda g: g)
+    ),
+    argnums=(1,),
 )
 defvjp(anp.triu, lambda ans, x, k=0: unbroadcast_f(x, lambda g: anp.triu(g, k=k)))
 defvjp(anp.tril, lambda ans, x, k=0: unbroadcast_f(x, lambda g: anp.tril(g, k=k)))
@@ -290,8 +299,8 @@ defvjp(
 
 defvjp(
     anp._astype,
-    lambda ans, A, dtype, order="K", casting="unsafe", subok=True, copy=True: lambda g: anp._astype(
-        g, A.dtype
+    lambda ans, A, dtype, order="K", casting="unsafe", subok=True, copy=True: (
+        (lambda g: vspace(A).zeros()) if is_discrete(ans) else (lambda g: anp._astype(g, A.dtype))
     ),
 )
 
@@ -992,6 +1001,8 @@ def replace_zero(x, val):
 def array_from_args_gradmaker(argnum, ans, args, kwargs):
     # ndmin may have prepended axes of length one to the stacked result
     extra = anp.ndim(ans) - anp.ndim(args[argnum]) - 1
+    if is_discrete(ans):  # dtype=int / bool requested
+        return lambda g: vspace(args[argnum]).zeros()
     return lambda g: match_complex(args[argnum], g[(0,) * extra + (argnum - 2,)])
 
 
@@ -1001,6 +1012,8 @@ defvjp_argnum(anp.array_from_args, array_from_args_gradmaker)
 def array_from_scalar_or_array_gradmaker(ans, array_args, array_kwargs, scarray):
     ndmin = array_kwargs.get("ndmin", 0)
     scarray_ndim = anp.ndim(scarray)
+    if is_discrete(ans):  # dtype=int / bool requested
+        return lambda g: vspace(scarray).zeros()
     # (a complex dtype= may have been requested for real input: the cotangent goes back to the kind of the input)
     if ndmin > scarray_ndim:
         return lambda g: match_complex(scarray, anp.squeeze(g, axis=tuple(range(ndmin - scarray_ndim))))
